@@ -45,6 +45,12 @@ def scenarios(quick):
                   ["burst", "rcreate:3:1,2", "rcreate:2:1", "conf+2", "conf+3", "create:2", "conf-3"], ["burst", "conf+2", "create:3", "conf-2"],
                   ["rcreate:2:1,2", "rcreate:3:1,3", "conf+3", "conf+2", "settle", "create:1", "conf-2", "delete"]):
         out.append({"name": "reannounce", "steps": steps})
+    # a restart with a replica whose stored raft snapshot does not load: the group fails to start, the allocator goes
+    # on without it; the dataset is deleted later (the half-started group is stopped) and the catalogue keeps changing
+    for steps in (["rcreate!:1:1", "settle", "rdelete", "create:1", "create:1", "delete"],
+                  ["burst", "rcreate!:2:1,2", "conf+2", "rdelete", "create:2", "conf-2", "create:1"],
+                  ["create:1", "rcreate!:1:1", "rcreate:1:1", "settle", "rdelete", "delete", "create:1"]):
+        out.append({"name": "unloadable-replica", "steps": steps})
     # membership changes while other goroutines of the node dial peers (two locks in cluster.Conn: address book, connections)
     dchurn = []
     for i in range(40 if quick else 150):
